@@ -370,13 +370,18 @@ STAR_MODULES = {
     'with_all_tuple.py': '__all__ = ("t_one", "_t_two")\nt_one = 1\n_t_two = 2\nt_three = 3\n',
     'without_all.py': 'plain = 1\n_private = 2\n',
     'reexporting.py': 'from with_all import *\n__all__ = ["shown", "own"]\nown = 4\n',
+    # an __all__ that is not a display of literals: what it lists cannot be read off the text (the default rule is the best guess)
+    'computed_all.py': 'NAME = "alpha"\n__all__ = [NAME, "beta"]\nalpha = 1\nbeta = 2\n',
+    'augmented_all.py': '__all__ = ["first"]\n__all__ += ["second"]\nfirst = 1\nsecond = 2\n',
+    'star_of_computed.py': 'from computed_all import *\nmore = 3\n',
 }
-STAR_READS = [('with_all', ['_hidden', 'shown', 'not_listed']), ('with_all_tuple', ['t_one', '_t_two', 't_three']), ('without_all', ['plain', '_private']),
+STAR_READS = [('computed_all', ['alpha', 'beta']), ('star_of_computed', ['more', 'beta']), ('augmented_all', ['first']),
+              ('with_all', ['_hidden', 'shown', 'not_listed']), ('with_all_tuple', ['t_one', '_t_two', 't_three']), ('without_all', ['plain', '_private']),
               ('reexporting', ['shown', 'own', '_hidden', 'not_listed'])]
 
 
-@harness(['C01', 'C03'], 'supp.scope.SourceScope.resolve_star_imports [what a star import binds, against CPython]',
-         bounded='4 project modules (with __all__ as a list and as a tuple, listing underscore names and leaving public ones out; without __all__; '
+@harness(['C01', 'C03', 'C08'], 'supp.scope.SourceScope.resolve_star_imports [what a star import binds, against CPython]',
+         bounded='7 project modules (with __all__ as a list and as a tuple, computed or augmented, listing underscore names and leaving public ones out; without __all__; '
                  're-exporting a star import under an __all__ of its own) x a read of every name of theirs after `from m import *`, each run under CPython')
 def star_import_names(run):
     """BOUNDED: after `from m import *` a read of name n is reported undefined by lint exactly when CPython raises NameError for it: a module's
@@ -405,7 +410,10 @@ def star_import_names(run):
                     if not runs and 'NameError' not in r.stderr:
                         prove('%s.%s:witness-runs-or-raises-NameError' % (mod, n), False, kind='lemma', clause=r.stderr[-200:], path=path)
                         continue
-                    got = [d[:2] for d in L.lint(Pj.Project([top]), text, os.path.join(top, 'edited.py')) if d[0] in ('E02', 'E42')]
+                    try:
+                        got = [d[:2] for d in L.lint(Pj.Project([top]), text, os.path.join(top, 'edited.py')) if d[0] in ('E02', 'E42')]
+                    except Exception as e:
+                        got = ['lint raised %s: %s' % (type(e).__name__, e)]
                     ok = (got == []) if runs else (got == [('E02', 'Undefined name: %s' % n)])
                     if not ok:
                         core.RUN.concretise = lambda model, ob, text=text: {'input': text, 'script': (
